@@ -394,6 +394,9 @@ class ProcessRunner(Runner, ABC):
                 continue
             try:
                 task_result = future.result()
+            except KeyboardInterrupt:
+                # An interrupt of this process is not the task's outcome.
+                raise
             except BaseException as ex:
                 yield (task, ex)
             else:
